@@ -48,6 +48,20 @@ theorem markers_sound_impl (sync dSend dSync rSend rSync : Bool)
     dSend = true ∧ dSync = true ∧ rSend = true ∧ rSync = true :=
   markers_sound facts facts_sound.1 sync dSend dSync rSend rSync h
 
+/-- **text views**: a lazy text over data `D` and a caller-supplied resolver `I` crosses a thread boundary only if
+    `D` is thread-safe and `I` may be shared -/
+theorem text_sound (F : MarkerFacts) (hF : F = ⟨true, true, true, true, true, true⟩) (dSend dSync rSync : Bool) :
+    textOk F dSend dSync rSync = true ↔ (dSend = true ∧ dSync = true ∧ rSync = true) := by
+  subst hF
+  cases dSend <;> cases dSync <;> cases rSync <;> simp [textOk, handleOk]
+
+/-- **the kind type does not matter**: the marker impls of the current source say nothing about `S`, so the decision for
+    any kind type is the one made from `D` -/
+theorem kind_irrelevant (sync dSend dSync : Bool) :
+    kindFreeOk facts SourceFacts.nodeMarkersConstrainS sync dSend dSync = handleOk facts sync dSend dSync := by
+  have : SourceFacts.nodeMarkersConstrainS = false := by decide
+  simp [kindFreeOk, this]
+
 /-- without the bounds the decision is unsound: a tree over non-thread-safe data is accepted -/
 theorem unbounded_is_unsound : accepted ⟨false, false, false, false, false, false⟩ false false false false false = true := by
   decide
